@@ -746,9 +746,10 @@ func init() {
 				if c.Intn(3) != 0 {
 					donl, skip := c.Intn(4) == 0, c.Intn(3) == 0
 					mtu := c.Pick(4, 5, 6, 7, 8, 10, 16, 30, 100, 1200, 4+c.Intn(60))
-					if donl && mtu < 6 {
-						mtu = 6
+					if donl && mtu < 5 {
+						mtu = 5 // payload header, DONL and one byte: nothing shorter can carry a unit with its DONL
 					}
+					tiny := donl && mtu == 5 // only 3-byte units can be sent at all (a fragment would have no room for payload)
 					ncalls := 1 + c.Intn(2)
 					var cs TList
 					p := &codecs.H265Payloader{AddDONL: donl, SkipAggregation: skip}
@@ -764,6 +765,9 @@ func init() {
 								size = mtu - 4 + c.Intn(7)
 							default:
 								size = 3 + c.Intn(3*mtu)
+							}
+							if tiny {
+								size = 3
 							}
 							nals = append(nals, genH265Nal(c, size))
 						}
